@@ -162,20 +162,47 @@ def need(d, key, where='document'):
     return d[key]
 
 
+_repo_mods = {}
+
+
 def reset_caches():
     """Puts the decoder's module-level state back to what a fresh interpreter
-    has after import (used at the top of fuzz iterations and in forked CLI
-    children so that they behave like a new process)."""
-    import importlib
+    has after import (used between cases, at the top of fuzz iterations and in
+    forked CLI children so that they behave like a new process).
+
+    Name-agnostic on purpose: every module-level import cache of the code under
+    test (a dict whose values are modules or None) is emptied and every memoised
+    function (anything with cache_clear) is reset, whatever it is called - a
+    refactoring that renames a cache must not make the harness see stale state.
+    """
+    import types
     m = mods()
-    for modname, attr in (('parse_user_data', 'userDataParsers'), ('src', 'calloutParsers'),
-                          ('src', 'srcParsers')):
-        d = getattr(m[modname], attr, None)
-        if isinstance(d, dict):
-            d.clear()
-    osrc = sys.modules.get('srcparsers.osrc.osrc')
-    if osrc is not None and isinstance(getattr(osrc, 'osrcParsers', None), dict):
-        osrc.osrcParsers.clear()
+    if _repo_mods.get('n') != len(sys.modules):
+        root = os.path.realpath(repoenv.MODULES) + os.sep
+        found = []
+        for name, mod in list(sys.modules.items()):
+            f = getattr(mod, '__file__', None)
+            if f and os.path.realpath(f).startswith(root):
+                found.append(mod)
+        _repo_mods['n'] = len(sys.modules)
+        _repo_mods['mods'] = found
+    for mod in _repo_mods['mods']:
+        for attr, obj in list(vars(mod).items()):
+            if attr.startswith('__'):
+                continue
+            try:
+                if isinstance(obj, dict) and obj and all(isinstance(k, str) for k in obj) and \
+                        all(v is None or isinstance(v, types.ModuleType) for v in obj.values()):
+                    obj.clear()
+                elif callable(getattr(obj, 'cache_clear', None)) and not isinstance(obj, type):
+                    obj.cache_clear()
+                elif isinstance(obj, type):
+                    # memoised methods / static helpers on classes
+                    for cattr, cobj in list(vars(obj).items()):
+                        if callable(getattr(cobj, 'cache_clear', None)):
+                            cobj.cache_clear()
+            except Exception:
+                pass
     ci = m['comp_id']
     if isinstance(getattr(ci, 'componentIDs', None), dict):
         ci.componentIDs.clear()
